@@ -195,6 +195,7 @@ class C11(Prop):
     id = 'C11'
     reparse_histories = False      # explanations (part of the compared results) also cover earlier parse() calls
     struct_inputs = False          # the arguments of the workload are compared before/after the call
+    typed_inputs = False
     rule_added = "Some pairs of objects share the interval text and have sampling periods with the same number and another unit; 40% of multi-variable offline purity cases insert a poisoned call (one variable without numbers) between repetitions. 25% of discrete offline purity cases with tuple columns; identity of the caller's dictionary entries is compared. Cross-process groups by kind (random / confusable periods / dense units / discrete units). 40% of the dense online objects re-send the frontier sample at the start of their second batch."
     rule = ('(1) purity: one spec of each monitor kind is run on generated data passed as tripwire lists/dicts; the '
             'arguments are deep-compared before/after every call (short traces under long bounds, bare variables '
